@@ -39,7 +39,6 @@ import (
 	"github.com/nuts-foundation/nuts-node/storage"
 	"github.com/nuts-foundation/nuts-node/test"
 	"github.com/nuts-foundation/nuts-node/vcr"
-	"github.com/nuts-foundation/nuts-node/vcr/pe"
 	"github.com/nuts-foundation/nuts-node/vcr/verifier"
 	"github.com/nuts-foundation/nuts-node/vdr/didsubject"
 	"github.com/nuts-foundation/nuts-node/vdr/resolver"
@@ -48,6 +47,12 @@ import (
 )
 
 const vSvc = "verif_svc"
+
+// a second list served by the same server (and copied by the same client): everything about vSvc must be independent of it
+const vSvc2 = "verif_svc2"
+
+// a third definition known to the client only; its server is unreachable (Get fails)
+const vSvcDown = "verif_down"
 
 // ---------- recipes: how a presentation is built (authoritative in replay files) ----------
 
@@ -86,6 +91,7 @@ type vOp struct {
 	Class  string                 `json:"class,omitempty"` // generator's name for the op (distribution / oracle hints)
 	Quiet  int                    `json:"quiet,omitempty"` // k-th consecutive poll with no server event since the previous poll
 	Until  int64                  `json:"until,omitempty"` // sleep: until t0+Until (real clock)
+	Added  int                    `json:"added"`           // cnoise: how many presentations of the OTHER service the client stored (each add prunes)
 	Up     bool                   `json:"up"`              // verifier: the client node's verifier is available (true) / down (false)
 	After  int                    `json:"after"`           // get: the timestamp asked for
 	Order  []string               `json:"order,omitempty"` // poll/pollB: ids in the order updateService stored them (Go map iteration)
@@ -137,6 +143,10 @@ type vWorld struct {
 	byID     map[string]*vBuilt
 	seeds    []string
 	gate     func() // armed: runs once after the first read of sqlStore.get on the server
+	defDir     string
+	defs       map[string]ServiceDefinition
+	noise      map[string]string // other service: subject -> id of its presentation there (what the server must list for vSvc2)
+	otherAdds  int               // presentations of the other service the client stored during the running update
 	clientDown bool   // the client node's VerifyVP fails for everything (DID resolution / verifier outage)
 	addOrder []string // presentation ids in the order the client stored them during the running updateService
 	credPool map[string]vc.VerifiableCredential
@@ -147,8 +157,12 @@ type vAdapter struct{ w *vWorld }
 func (a vAdapter) Register(ctx context.Context, _ string, presentation vc.VerifiablePresentation) error {
 	return a.w.server.Register(ctx, vSvc, presentation)
 }
-func (a vAdapter) Get(ctx context.Context, _ string, timestamp int) (map[string]vc.VerifiablePresentation, string, int, error) {
-	ps, seed, ts, err := a.w.server.Get(ctx, vSvc, timestamp)
+func (a vAdapter) Get(ctx context.Context, endpoint string, timestamp int) (map[string]vc.VerifiablePresentation, string, int, error) {
+	id := endpoint[strings.LastIndex(endpoint, "/")+1:]
+	if id == vSvcDown {
+		return nil, "", 0, errors.New("verif: " + vSvcDown + " is unreachable")
+	}
+	ps, seed, ts, err := a.w.server.Get(ctx, id, timestamp)
 	if err != nil {
 		return nil, "", 0, err
 	}
@@ -164,21 +178,27 @@ func (a vAdapter) Get(ctx context.Context, _ string, timestamp int) (map[string]
 	return res.Entries, res.Seed, res.Timestamp, nil
 }
 
-func vDefinition(r vDefRecipe) ServiceDefinition {
-	return ServiceDefinition{
-		ID:         vSvc,
-		DIDMethods: r.DIDMethods,
-		Endpoint:   "http://verif.example/" + vSvc,
-		PresentationDefinition: pe.PresentationDefinition{
-			InputDescriptors: []*pe.InputDescriptor{
-				{Id: "1", Constraints: &pe.Constraints{Fields: []pe.Field{{
-					Id: to.Ptr("issuer_field"), Path: []string{"$.issuer"},
-					Filter: &pe.Filter{Type: "string", Pattern: to.Ptr("did:example:authority")}}}}},
-				{Id: "2", Constraints: &pe.Constraints{Fields: []pe.Field{{
-					Id: to.Ptr("auth_server_url"), Path: []string{"$.credentialSubject.authServerURL"}}}}},
-			},
-		},
-		PresentationMaxValidity: r.MaxValidity,
+// vWriteDefinitions writes the service definitions as JSON files, the way an operator configures them; the modules load
+// them through Configure -> loadDefinitions -> ParseServiceDefinition (schema validation + decoding)
+func vWriteDefinitions(t *testing.T, dir string, r vDefRecipe) {
+	_ = os.RemoveAll(dir)
+	if err := os.MkdirAll(dir, 0o755); err != nil {
+		t.Fatal(err)
+	}
+	for _, id := range []string{vSvc, vSvc2, vSvcDown} {
+		methods := ""
+		if len(r.DIDMethods) > 0 {
+			b, _ := json.Marshal(r.DIDMethods)
+			methods = `"did_methods": ` + string(b) + `,`
+		}
+		doc := `{"id": "` + id + `", ` + methods + ` "endpoint": "http://verif.example/discovery/` + id + `",
+ "presentation_max_validity": ` + strconv.Itoa(r.MaxValidity) + `,
+ "presentation_definition": {"id": "pd_` + id + `", "input_descriptors": [
+  {"id": "1", "constraints": {"fields": [{"id": "issuer_field", "path": ["$.issuer"], "filter": {"type": "string", "pattern": "did:example:authority"}}]}},
+  {"id": "2", "constraints": {"fields": [{"id": "auth_server_url", "path": ["$.credentialSubject.authServerURL"]}]}}]}}`
+		if err := os.WriteFile(filepath.Join(dir, id+".json"), []byte(doc), 0o644); err != nil {
+			t.Fatal(err)
+		}
 	}
 }
 
@@ -188,9 +208,7 @@ func vTables(db *gorm.DB) error {
 			return err
 		}
 	}
-	// what newSQLStore does for every definition
-	rec := serviceRecord{ID: vSvc}
-	return db.FirstOrCreate(&rec, "id = ?", vSvc).Error
+	return nil // newSQLStore (Module.Start) creates the service records
 }
 
 func (w *vWorld) newModule(engine storage.Engine, isServer bool, verdict func(*vBuilt) bool) *Module {
@@ -207,19 +225,24 @@ func (w *vWorld) newModule(engine storage.Engine, isServer bool, verdict func(*v
 	mvcr := vcr.NewMockVCR(ctrl)
 	mvcr.EXPECT().Verifier().Return(mv).AnyTimes()
 	m := New(engine, mvcr, didsubject.NewMockManager(ctrl), resolver.NewMockDIDResolver(ctrl))
-	m.config = DefaultConfig()
-	m.config.Client.RefreshInterval = 0
-	m.publicURL = test.MustParseURL("https://verif.example")
-	m.allDefinitions = map[string]ServiceDefinition{vSvc: w.def}
+	// configured and started the way the node does it: Config() filled in, Configure (loads the definition files), Start
+	cfg := m.Config().(*Config)
+	*cfg = DefaultConfig()
+	cfg.Client.RefreshInterval = 0
+	cfg.Definitions.Directory = w.defDir
 	if isServer {
-		m.serverDefinitions = map[string]ServiceDefinition{vSvc: w.def}
+		cfg.Server.IDs = []string{vSvc, vSvc2}
 	}
-	m.httpClient = vAdapter{w}
+	if err := m.Configure(core.TestServerConfig()); err != nil {
+		w.t.Fatal(err)
+	}
+	if m.publicURL == nil {
+		m.publicURL = test.MustParseURL("https://verif.example")
+	}
+	m.httpClient = vAdapter{w} // the only substitution: HTTP transport -> direct call (+ JSON round trip)
 	if err := m.Start(); err != nil {
 		w.t.Fatal(err)
 	}
-	m.httpClient = vAdapter{w}
-	m.clientUpdater.client = vAdapter{w}
 	return m
 }
 
@@ -537,6 +560,8 @@ type vRunner struct {
 	rng     *rand.Rand
 	nOps    int
 	nextLbl int
+	dir     string
+	side    *bufio.Writer
 }
 
 func (r *vRunner) emit(op vOp, line string) {
@@ -544,7 +569,48 @@ func (r *vRunner) emit(op vOp, line string) {
 	r.ops.Write(b)
 	r.ops.WriteString("\n")
 	r.out.WriteString(line + "\n")
+	r.side.WriteString(r.sideLine() + "\n")
 	r.nOps++
+}
+
+// sideLine: observations that are not part of the model but of the direct oracle: the OTHER service's rows on both nodes
+// (must only change through operations on that service) and the client's search with a query
+func (r *vRunner) sideLine() string {
+	w := r.w
+	if w == nil || w.server == nil || w.client == nil {
+		return "{}"
+	}
+	ids := func(m *Module) []string {
+		var rows []presentationRecord
+		m.store.db.Find(&rows, "service_id = ?", vSvc2)
+		out := []string{}
+		for _, x := range rows {
+			out = append(out, x.CredentialSubjectID+":"+x.PresentationID)
+		}
+		sort.Strings(out)
+		return out
+	}
+	q2 := map[string][]string{}
+	for _, sub := range vSubjects {
+		res, err := w.client.Search(vSvc, map[string]string{"credentialSubject.id": sub})
+		l := []string{}
+		if err != nil {
+			l = append(l, "error:"+err.Error())
+		}
+		for _, x := range res {
+			signer := ""
+			if k := vKid(x.Presentation); k != nil {
+				signer = k.String()
+			}
+			l = append(l, signer+":"+x.Presentation.ID.String())
+		}
+		sort.Strings(l)
+		q2[sub] = l
+	}
+	var svcs []serviceRecord
+	w.client.store.db.Find(&svcs)
+	b, _ := json.Marshal(map[string]interface{}{"s2S": ids(w.server), "s2C": ids(w.client), "q2": q2, "noise": w.noise})
+	return string(b)
 }
 
 func vNow() int64 { return time.Now().Unix() }
@@ -554,8 +620,9 @@ func (r *vRunner) initHistory(hist int, dr vDefRecipe) {
 		_ = r.w.server.Shutdown()
 		_ = r.w.client.Shutdown()
 	}
-	w := &vWorld{t: r.t, t0: vNow(), byRaw: map[string]*vBuilt{}, byID: map[string]*vBuilt{}, credPool: map[string]vc.VerifiableCredential{}}
-	w.def = vDefinition(dr)
+	w := &vWorld{t: r.t, t0: vNow(), byRaw: map[string]*vBuilt{}, byID: map[string]*vBuilt{}, credPool: map[string]vc.VerifiableCredential{},
+		noise: map[string]string{}, defDir: filepath.Join(r.dir, "definitions")}
+	vWriteDefinitions(r.t, w.defDir, dr)
 	if err := vTables(r.engS.GetSQLDatabase()); err != nil {
 		r.t.Fatal(err)
 	}
@@ -564,6 +631,11 @@ func (r *vRunner) initHistory(hist int, dr vDefRecipe) {
 	}
 	w.server = w.newModule(r.engS, true, func(b *vBuilt) bool { return b.rec.VerifyS })
 	w.client = w.newModule(r.engC, false, func(b *vBuilt) bool { return b.rec.VerifyC && !w.clientDown })
+	w.defs = w.server.allDefinitions
+	w.def = w.defs[vSvc]
+	if len(w.server.serverDefinitions) != 2 || len(w.client.serverDefinitions) != 0 || len(w.client.allDefinitions) != 3 {
+		r.t.Fatalf("definitions not wired as configured: server serves %d, client serves %d of %d", len(w.server.serverDefinitions), len(w.client.serverDefinitions), len(w.client.allDefinitions))
+	}
 	r.w = w
 	methods := dr.DIDMethods
 	if methods == nil {
@@ -616,10 +688,52 @@ func (r *vRunner) exec(op vOp, src func() (vOp, bool)) {
 		cls := vRecover(func() error { return w.server.Register(ctx, vSvc, sent) })
 		r.emit(op, w.observe(cls, op.Now))
 	case "reset":
+		// the server loses its database and starts again (newSQLStore re-creates the service records)
 		if err := vTables(r.engS.GetSQLDatabase()); err != nil {
 			r.t.Fatal(err)
 		}
+		if _, err := newSQLStore(r.engS.GetSQLDatabase(), w.server.allDefinitions); err != nil {
+			r.t.Fatal(err)
+		}
+		w.noise = map[string]string{}
 		r.emit(op, w.observe("ok", op.Now))
+	case "noise":
+		// a registration on the OTHER list of the same server: for vSvc only its prune (all services) is visible
+		rec := *op.Recipe
+		b := w.build(rec)
+		cls := vRecover(func() error { return w.server.Register(ctx, vSvc2, b.vp) })
+		if cls == "ok" {
+			w.noise[rec.Subject] = b.vp.ID.String()
+			op.Added = 1
+		}
+		r.emit(op, w.observe("ok", op.Now)) // its own outcome is judged by the side oracle (the other list's rows)
+	case "cnoise":
+		// the client copies the OTHER list
+		w.addOrder, w.otherAdds = nil, 0
+		cls := vRecover(func() error { return w.client.clientUpdater.updateService(ctx, w.defs[vSvc2]) })
+		op.Added = w.otherAdds
+		r.emit(op, w.observe(cls, op.Now))
+	case "pollall":
+		// clientUpdater.update: every service the client knows, in Go's map order, one of them unreachable.
+		// The other list was copied just before, so only vSvc has news.
+		w.otherAdds = 0
+		_ = vRecover(func() error { return w.client.clientUpdater.updateService(ctx, w.defs[vSvc2]) })
+		_ = vRecover(func() error { return w.client.clientUpdater.updateService(ctx, w.defs[vSvc2]) })
+		op.Added = w.otherAdds // each of them pruned the client's rows first
+		w.addOrder, w.otherAdds = nil, 0
+		cls := vRecover(func() error { return w.client.clientUpdater.update(ctx) })
+		if strings.HasPrefix(cls, "err:other:") && strings.Contains(cls, vSvcDown) && !strings.Contains(cls, vSvc+")") {
+			cls = "err:other-service-down"
+		}
+		if w.otherAdds != 0 {
+			r.t.Fatalf("pollall: the other list had news (%d)", w.otherAdds)
+		}
+		op.Order = w.addOrder
+		r.emit(op, w.observe(cls, op.Now))
+	case "purge":
+		// clientRegistrationManager.removeRevoked: nothing is revoked here, verification failures are not revocations
+		cls := vRecover(func() error { return w.client.registrationManager.removeRevoked() })
+		r.emit(op, w.observe(cls, op.Now))
 	case "poll":
 		w.addOrder = nil
 		cls := vRecover(func() error { return w.client.clientUpdater.updateService(ctx, w.def) })
@@ -733,15 +847,32 @@ func (r *vRunner) genServerOp(lastExp map[string]int64) vOp {
 	rows := r.serverRows()
 	pick := rng.Intn(100)
 	switch {
-	case pick < 34:
+	case pick < 30:
 		// valid (first registration or refresh)
+		if rng.Intn(5) == 0 {
+			class, rec.Aud = "valid-two-audiences", [][]string{{vSvc2, vSvc}, {vSvc, "x"}}[rng.Intn(2)]
+		}
+	case pick < 32:
+		// the id another subject uses here: ids are per signer, so this is a registration like any other
+		for _, row := range rows {
+			if row.CredentialSubjectID != subj {
+				class, rec.JTI = "valid-id-of-another-subject", row.PresentationID
+				break
+			}
+		}
+	case pick < 34:
+		// the id this subject uses on the OTHER list of the server
+		if id, ok := r.w.noise[subj]; ok {
+			class, rec.JTI = "valid-id-used-on-other-list", id
+		}
 	case pick < 38:
 		class, rec.Format = "defect:format", "zero"
 	case pick < 41:
 		class, rec.NoID = "defect:no-id", true
 	case pick < 44:
 		class = "defect:aud"
-		rec.Aud = [][]string{{}, {"other_svc"}, {"other_svc", "x"}}[rng.Intn(3)]
+		// nobody, another list of the same server, near misses of this list's id (prefix / case)
+		rec.Aud = [][]string{{}, {vSvc2}, {"other_svc", "x"}, {vSvc + "_v2"}, {strings.ToUpper(vSvc)}, {"verif"}}[rng.Intn(6)]
 	case pick < 46:
 		class, rec.Exp = "defect:no-exp", nil
 	case pick < 49:
@@ -749,7 +880,8 @@ func (r *vRunner) genServerOp(lastExp map[string]int64) vOp {
 	case pick < 51:
 		class, rec.NoKid = "defect:no-kid", true
 	case pick < 54:
-		class, rec.Subject = "defect:did-method", "did:web:verif.example:x"+strconv.Itoa(rng.Intn(2))
+		// another method, and near misses of the allowed method name (longer / shorter)
+		class, rec.Subject = "defect:did-method", []string{"did:web:verif.example:x0", "did:web:verif.example:x1", "did:example2:x0", "did:exam:x0"}[rng.Intn(4)]
 	case pick < 57:
 		// outlives a credential; the sooner-expiring one first or AFTER one that does not expire at all
 		class, rec.Creds = "defect:cred-exp", [][]string{{"orgShort", "holder"}, {"holder", "orgShort"}}[rng.Intn(2)]
@@ -874,15 +1006,35 @@ func (r *vRunner) history(hist int, nOps int) {
 	for i := 0; i < nOps; i++ {
 		p := rng.Intn(100)
 		switch {
-		case p < 55:
+		case p < 50:
 			o := r.genServerOp(lastExp)
 			noteExp(o)
 			r.exec(o, nil)
 			quiet = 0
-		case p < 58:
+		case p < 53:
 			r.exec(vOp{Op: "reset", Class: "reset"}, nil)
 			lastExp = map[string]int64{}
 			quiet = 0
+		case p < 56:
+			// the other list of the same server gets an entry of one of our subjects (sometimes under the id it uses here)
+			subj := vSubjects[rng.Intn(len(vSubjects))]
+			rec := r.validRecipe(subj)
+			rec.Aud = []string{vSvc2}
+			if rows := r.serverRows(); len(rows) > 0 && rng.Intn(3) == 0 {
+				for _, row := range rows {
+					if row.CredentialSubjectID == subj {
+						rec.JTI = row.PresentationID
+					}
+				}
+			}
+			r.exec(vOp{Op: "noise", Recipe: &rec, Class: "other-list-registration"}, nil)
+		case p < 58:
+			r.exec(vOp{Op: "cnoise", Class: "other-list-poll"}, nil)
+		case p < 60:
+			quiet++
+			r.exec(vOp{Op: "pollall", Quiet: quiet, Class: "update-all-services"}, nil)
+		case p < 62:
+			r.exec(vOp{Op: "purge", Class: "remove-revoked"}, nil)
 		case p < 76:
 			quiet++
 			r.exec(vOp{Op: "poll", Quiet: quiet}, nil)
@@ -1083,9 +1235,16 @@ func TestVerifC16(t *testing.T) {
 		t.Fatal(err)
 	}
 	defer outF.Close()
-	r := &vRunner{t: t, ops: bufio.NewWriter(opsF), out: bufio.NewWriter(outF), rng: rand.New(rand.NewSource(seed*7919 + 16))}
+	sideF, err := os.Create(filepath.Join(outDir, "side.jsonl"))
+	if err != nil {
+		t.Fatal(err)
+	}
+	defer sideF.Close()
+	r := &vRunner{t: t, ops: bufio.NewWriter(opsF), out: bufio.NewWriter(outF), side: bufio.NewWriter(sideF), dir: outDir,
+		rng: rand.New(rand.NewSource(seed*7919 + 16))}
 	defer r.ops.Flush()
 	defer r.out.Flush()
+	defer r.side.Flush()
 	r.engS = storage.NewTestStorageEngine(t)
 	if err := r.engS.Start(); err != nil {
 		t.Fatal(err)
@@ -1115,7 +1274,11 @@ func TestVerifC16(t *testing.T) {
 			return
 		}
 		if rec, ok := tx.Statement.Dest.(*presentationRecord); ok {
-			r.w.addOrder = append(r.w.addOrder, rec.PresentationID)
+			if rec.ServiceID == vSvc {
+				r.w.addOrder = append(r.w.addOrder, rec.CredentialSubjectID+"|"+rec.PresentationID)
+			} else {
+				r.w.otherAdds++
+			}
 		}
 	})
 	if err != nil {
